@@ -47,6 +47,8 @@ THEOREMS = [
     "C13_link_first",
     "C13_any_class_refuted",
     "C13_any_class_partial",
+    "C13_reader_total",
+    "C13_reader_terminates",
 ]
 
 CORPUS_DIR = os.path.join(VERIF, "corpus", "C13")
